@@ -4,6 +4,7 @@ import (
 	"context"
 	"fmt"
 	"strings"
+	"sync/atomic"
 	"testing"
 
 	"github.com/cloudwego/hertz/pkg/app"
@@ -23,6 +24,7 @@ import (
 func TestC09PreReadWindow(t *testing.T) {
 	rec := ev.New("preread-window")
 	var grow string
+	limit := 1024
 	mk := func() *sconn.Server {
 		return sconn.NewServer(func(h *server.Hertz) {
 			h.POST("/dirty", func(c context.Context, ctx *app.RequestContext) {
@@ -42,7 +44,7 @@ func TestC09PreReadWindow(t *testing.T) {
 				ctx.SetBodyString(fmt.Sprintf("up:%d", len(ctx.Request.Body())))
 			})
 			h.GET("/probe", func(c context.Context, ctx *app.RequestContext) { ctx.SetBodyString("probe-ok") })
-		}, server.WithStreamBody(true), server.WithMaxRequestBodySize(1024))
+		}, server.WithStreamBody(true), server.WithMaxRequestBodySize(limit))
 	}
 	outcome := func(out []byte, closed bool, methods []string) string {
 		var parts []string
@@ -57,10 +59,16 @@ func TestC09PreReadWindow(t *testing.T) {
 		}
 		return fmt.Sprintf("%v closed=%v", parts, closed)
 	}
+	var knownD162 int64
+	defer func() {
+		rec.Excluded("D162-body-limit-below-1023-does-not-bound-a-fresh-read-buffer", atomic.LoadInt64(&knownD162))
+	}()
 	rapid.Check(t, func(t *rapid.T) {
 		grow = rapid.SampledFrom([]string{"Body()", "SetBody", "AppendBody"}).Draw(t, "howTheEarlierRequestGrewTheBuffer")
 		dirtyLen := rapid.SampledFrom([]int{2000, 20000, 100000}).Draw(t, "earlierBodyLen")
-		overLen := rapid.SampledFrom([]int{1025, 3000, 8000, 9000}).Draw(t, "overLimitBodyLen")
+		// limits below the 1 KiB a fresh body buffer starts with: the limit bounds that buffer as well
+		limit = rapid.SampledFrom([]int{1024, 1024, 10, 300}).Draw(t, "bodyLimit")
+		overLen := rapid.SampledFrom([]int{limit + 1, 2 * limit, 1025, 3000, 8000, 9000}).Draw(t, "overLimitBodyLen")
 		pair := fmt.Sprintf("POST /up HTTP/1.1\r\nHost: h\r\nContent-Length: %d\r\n\r\n%sGET /probe HTTP/1.1\r\nHost: h\r\n\r\n", overLen, strings.Repeat("u", overLen))
 		dirty := fmt.Sprintf("POST /dirty HTTP/1.1\r\nHost: h\r\nContent-Length: %d\r\n\r\n%s", dirtyLen, strings.Repeat("d", dirtyLen))
 		fresh := mk()
@@ -69,7 +77,7 @@ func TestC09PreReadWindow(t *testing.T) {
 		used := mk()
 		ru := used.Serve(sconn.New([][]byte{[]byte(dirty), []byte(pair)}, sconn.EOF))
 		used.Close()
-		rec.Case(true, ev.HashString(grow, fmt.Sprint(dirtyLen, overLen)), "grown-by-"+grow)
+		rec.Case(true, ev.HashString(grow, fmt.Sprint(dirtyLen, overLen, limit)), "grown-by-"+grow, fmt.Sprintf("limit-%d", limit))
 		if rf.Panic != nil || ru.Panic != nil {
 			t.Fatalf("panic: %v %v", rf.Panic, ru.Panic)
 		}
@@ -79,8 +87,13 @@ func TestC09PreReadWindow(t *testing.T) {
 			t.Fatalf("the earlier request got no well-formed response: %v", err)
 		}
 		got := outcome(ru.Output[first.End:], ru.Closed, []string{"POST", "GET"})
+		if got != want && limit < 1023 && ev.ReportKnown(prop, "D162") {
+			// known finding D162: a fresh body buffer starts with 1 KiB whatever the limit says
+			atomic.AddInt64(&knownD162, 1)
+			return
+		}
 		if got != want {
-			t.Fatalf("POST /up with Content-Length %d (limit 1024) and a pipelined GET: on a new context the answers are %s; on the context recycled after a request of %d bytes (buffer grown by %s) they are %s", overLen, want, dirtyLen, grow, got)
+			t.Fatalf("POST /up with Content-Length %d (limit %d) and a pipelined GET: on a new context the answers are %s; on the context recycled after a request of %d bytes (buffer grown by %s) they are %s", overLen, limit, want, dirtyLen, grow, got)
 		}
 	})
 }
